@@ -276,7 +276,7 @@ Proof.
   intros P Q Q2 p cls mgr forced rk raw Hf HP HQ HQ2 H.
   unfold request in H. cbn [deliver_reply r_huge] in H. rewrite Hf in H.
   destruct (P true raw) as [root|]; [|congruence].
-  destruct (data_of cls root); destruct rk; destruct p; cbn [fst] in H; try discriminate;
+  destruct (hook p cls root); destruct rk; destruct p; cbn [fst] in H; try discriminate;
     destruct (Q true raw) as [t1|]; try congruence;
     destruct (Q2 true (junos_xslt t1)) eqn:E; try discriminate; eapply HQ2; eauto.
 Qed.
